@@ -507,6 +507,8 @@ def gen_recleak_case(rng, i):
         c["pk"]["a/sub"] = {"recursive": False, "td": td("S", nested) if rng.random() < 0.4 else None}
     if rng.random() < 0.5:
         c["pk"]["c"] = {"recursive": True, "td": td("C", nested) if rng.random() < 0.6 else None}
+    for p in c["pk"]:
+        c["pk"][p]["listed"] = rng.random() < 0.5
     order = list(c["pk"])
     rng.shuffle(order)
     c["order"] = order
@@ -528,7 +530,10 @@ def eval_recleak(ctx, case):
             conf["recursive"] = True
         if pc["td"]:
             conf["template-data"] = pc["td"]
-        cfg["packages"][MOD + "/" + p] = {"config": conf}
+        entry = {"config": conf}
+        if pc.get("listed"):
+            entry["interfaces"] = {"Svc": pc["listed"] if isinstance(pc["listed"], dict) else None}
+        cfg["packages"][MOD + "/" + p] = entry
     files[".mockery.yml"] = json.dumps(cfg)
     root = core.scratch_module(ctx, files)
     r = core.run_mockery(ctx, root, [], timeout=300)
@@ -544,6 +549,12 @@ def eval_recleak(ctx, case):
         seen[f["file"]["srcpkg"][len(MOD) + 1:]] = (f["file"]["td"], [i["td"] for i in f["ifaces"]])
     obs["observed"] = seen
     rec = [p for p, pc in case["pk"].items() if pc["recursive"]]
+    # an interface listed by name without settings of its own resolves to exactly what its package resolves to (whatever the package inherits)
+    for d, pc in case["pk"].items():
+        if pc.get("listed") and d in seen:
+            ftd, itds = seen[d]
+            if any(t != ftd for t in itds):
+                return Verdict.violated("package %s: interface listed by name (no settings of its own) sees template-data %s, its package resolves to %s" % (d, itds, ftd), obs, tags)
     for d in ("a", "a/sub", "a/sub2", "a/sub/deep", "b", "c", "c/x"):
         if d in case["pk"]:
             anc = [a for a in rec if d.startswith(a + "/")]
